@@ -61,6 +61,8 @@ struct Obj {
   virtual bool observe_changes_state() { return false; }       // documented side effects of getters
   virtual std::string extra_view(const Bytes&) { return std::string(); }  // wrapped read-only access over an image (theta, bloom)
   virtual bool beyond_exact() { return false; }         // state beyond exact mode (for non-triviality rules)
+  virtual std::string observe_order_free() { return observe_coarse(); }  // what must stay equal when continuing from an image whose entry order is unspecified
+  virtual std::string finding_key() { return std::string(); }  // non-empty: the state is one that a listed open finding is about (keys the round-trip checks)
   virtual std::string observe_coarse() { return observe(); }  // what must stay equal when continuing is not deterministic (REQ)
 };
 typedef std::unique_ptr<Obj> P;
@@ -199,6 +201,14 @@ struct HllObj : Obj {
       o << " regs-fnv=" << fnv1a(std::string(u.begin() + 40, u.end()));
     }
     return o.str();
+  }
+  // continuing from a compact SET image re-inserts the coupons in another order: the HIP accumulator (get_estimate and its bounds) is
+  // order-sensitive by design, the composite estimate and the registers are not
+  std::string observe_order_free() override {
+    std::string o = observe();
+    size_t a = o.find(" est="), b = o.find(" comp="), c = o.find(" lb1="), d = o.find(" csize=");
+    if (a == std::string::npos || b == std::string::npos || c == std::string::npos || d == std::string::npos) return o;
+    return o.substr(0, a) + o.substr(b, c - b) + o.substr(d);
   }
   int variants() const override { return 2; }
   Bytes bytes(unsigned h, int v) override {
@@ -536,6 +546,14 @@ struct DensObj : Obj {
     o << " points=" << e.size() << " fnv=" << h;
     if (!sk.is_empty()) for (uint64_t v : {1ull, 2ull, 3ull}) o << " est" << v << "=" << num(sk.get_estimate(point(v, sk.get_dim())));
     return o.str();
+  }
+  // open finding: the image does not store the number of levels, so a trailing empty level is lost (and with it the compaction threshold k * levels)
+  std::string finding_key() override {
+    std::string t = sk.to_string(true, false);
+    size_t e = t.rfind("### End sketch levels"); if (e == std::string::npos) return "";
+    size_t l = t.rfind(": ", e); if (l == std::string::npos) return "";
+    bool last_empty = std::atoi(t.c_str() + l + 2) == 0;
+    return (sk.is_estimation_mode() && last_empty) ? "C09|density|trailing-empty-level-lost|number-of-levels-not-stored-in-the-image" : "";
   }
   Bytes bytes(unsigned h, int) override { return to_bytes(sk.serialize(h)); }
   std::string stream(int) override { return ser_stream(sk); }
